@@ -5,7 +5,9 @@
 
 namespace vf {
 
-template<uint8_t D, typename T, typename Tuple>
+/// S is the element type of the tuples handed to the constructor: T itself, or a wider type (the coordinate is then too wide for T as
+/// well as for the encoder; the library has to judge the value it was given, not a conversion of it).
+template<uint8_t D, typename T, typename Tuple, typename S = T>
 CaseResult md_case(const RunCtx &ctx, TapeReader &t, unsigned size_hint) {
     CaseResult res;
     constexpr unsigned field_bits = std::numeric_limits<T>::digits / D;
@@ -14,13 +16,13 @@ CaseResult md_case(const RunCtx &ctx, TapeReader &t, unsigned size_hint) {
     size_t at = pick_pos(t, n);
     size_t dim = t.below(D);
     // too wide: bit width >= FieldBits, from just too wide up to the whole type
-    unsigned extra = (unsigned) t.below(std::numeric_limits<T>::digits - (field_bits - 1));
+    unsigned extra = (unsigned) t.below(std::numeric_limits<S>::digits - (field_bits - 1));
     uint64_t bad = (uint64_t(1) << (field_bits - 1 + extra));
     if (t.chance(1, 2)) bad |= t.bits(field_bits - 1 + extra);
     SplitMix pr(t.bits(64));
     if (ctx.want_desc) {
         std::ostringstream d;
-        d << "MultidimensionalPGMIndex<" << (int) D << "," << (sizeof(T) == 4 ? "uint32_t" : "uint64_t") << ",16> over " << n << " points, coordinate " << bad << " (bit width "
+        d << "MultidimensionalPGMIndex<" << (int) D << "," << (sizeof(T) == 4 ? "uint32_t" : "uint64_t") << ",16> (points given as " << (sizeof(S) == 4 ? "uint32_t" : "uint64_t") << " tuples) over " << n << " points, coordinate " << bad << " (bit width "
           << 64 - __builtin_clzll(bad) << " >= FieldBits " << field_bits << ") at point " << at << " dimension " << dim << "\n";
         res.desc = d.str();
     }
@@ -30,13 +32,14 @@ CaseResult md_case(const RunCtx &ctx, TapeReader &t, unsigned size_hint) {
         uint64_t c[4];
         for (size_t d = 0; d < 4; ++d) c[d] = pr.next() & cmax;
         if (i == at) c[dim] = bad;
-        if constexpr (D == 2) pts[i] = Tuple(T(c[0]), T(c[1]));
-        else if constexpr (D == 3) pts[i] = Tuple(T(c[0]), T(c[1]), T(c[2]));
-        else pts[i] = Tuple(T(c[0]), T(c[1]), T(c[2]), T(c[3]));
+        if constexpr (D == 2) pts[i] = Tuple(S(c[0]), S(c[1]));
+        else if constexpr (D == 3) pts[i] = Tuple(S(c[0]), S(c[1]), S(c[2]));
+        else pts[i] = Tuple(S(c[0]), S(c[1]), S(c[2]), S(c[3]));
     }
     std::string what;
     Thrown th = thrown_by([&] { pgm::MultidimensionalPGMIndex<D, T, 16> x(pts.begin(), pts.end()); }, what);
     res.label("coordinate_too_wide");
+    if (!std::is_same_v<S, T>) res.label("coordinates_given_in_a_wider_type");
     if (th == Thrown::Nothing) res.fail("a coordinate of bit width " + std::to_string(64 - __builtin_clzll(bad)) + " (FieldBits " + std::to_string(field_bits) + ") at point " +
                                         std::to_string(at) + " dimension " + std::to_string(dim) + " was accepted");
     res.nontrivial = n >= 3;
@@ -93,7 +96,10 @@ CaseResult builder_case(const RunCtx &ctx, TapeReader &t, unsigned size_hint) {
 }
 
 CaseResult reject_misc(const RunCtx &ctx, TapeReader &t, unsigned sh) {
-    switch (t.below(10)) {
+    switch (t.below(13)) {
+        case 10: return md_case<2, uint32_t, std::tuple<uint64_t, uint64_t>, uint64_t>(ctx, t, sh);
+        case 11: return md_case<3, uint32_t, std::tuple<uint64_t, uint64_t, uint64_t>, uint64_t>(ctx, t, sh);
+        case 12: return md_case<2, uint32_t, std::pair<uint64_t, uint64_t>, uint64_t>(ctx, t, sh);
         case 0: return md_case<2, uint32_t, std::tuple<uint32_t, uint32_t>>(ctx, t, sh);
         case 1: return md_case<3, uint32_t, std::tuple<uint32_t, uint32_t, uint32_t>>(ctx, t, sh);
         case 2: return md_case<4, uint64_t, std::tuple<uint64_t, uint64_t, uint64_t, uint64_t>>(ctx, t, sh);
